@@ -19,7 +19,7 @@ from detsim import kernel
 from detsim.kernel import EventLog, jdump, short_hash
 from detsim.fingerprint import Canon, brief, unhex_floats, obj_state
 from detsim.sched import (Sched, SimCancelled, StepBudgetExceeded, Replay, RoundRobin,
-                          draw_decider, Decider, wrap_module_locks)
+                          draw_decider, Decider, wrap_module_locks, sut_code_objects)
 from detsim.simfs import SimFS
 from checks.common import CheckBase
 from checks import c09_ops as ops_mod
@@ -76,19 +76,19 @@ class C09(CheckBase):
         'real': ['geodepy.angles', 'geodepy.constants', 'geodepy.convert', 'geodepy.geodesy', 'geodepy.statistics',
                  'geodepy.survey', 'geodepy.transform', 'geodepy.coord', 'geodepy.ntv2reader (under transform.ntv2_2d)',
                  'numpy'],
-        'simulated': ['caller threads (real OS threads, one baton, seeded scheduler at line events)',
+        'simulated': ['caller threads (real OS threads, one baton, seeded scheduler at line events or at every bytecode instruction)',
                       'cancellation / MemoryError / stall faults'],
         'stub': ['the disk under ntv2_2d (SimFS, one generated 2-sub-grid file)'],
     }
     assumptions = [
-        'pre-emption only at line boundaries inside files under /repo (a read-modify-write of shared state confined to ONE source line without a call into /repo code cannot be split); numpy C code runs atomically',
+        'pre-emption at line events (sys.settrace) in most runs and at every bytecode instruction (sys.monitoring INSTRUCTION events, instrumented before the threads start) in a share of the fault-free multi-threaded runs and in the same-kind sweep; always only inside files under /repo; numpy C code runs atomically',
         'the reference value of a call is the same code evaluated alone in a freshly forked pristine process',
         'a new private memo (underscore name, new name, or container empty at import) is tolerated as long as results stay bit-identical',
     ]
     rule = ('run = seeded history of 1..50 public-API calls over 1..8 simulated threads + fault plan; non-trivial = >=2 ops and '
             '(single thread: >=1 repeated or state-sharing op pair; multi thread: >=1 context switch while >=2 ops in flight); '
             'distinct = sha256 of (op kinds per thread, sequence of (pre-empted kind -> resumed kind) at switches, fault kinds fired)')
-    simulated_time_note = 'no timers in this system; time is scheduler steps (line events), see counters.steps'
+    simulated_time_note = 'no timers in this system; time is scheduler steps (line / instruction events), see counters.steps'
 
     # ------------------------------------------------------------------ setup
     def setup_process(self):
@@ -142,9 +142,12 @@ class C09(CheckBase):
         self.weights = ops_mod.kind_weights()
         self.kinds = sorted(k for k in ops_mod.OPS if not k.startswith('canary.'))
         self.kind_w = [self.weights[k] for k in self.kinds]
-        self.thorough_runs = self.N_RANDOM_THOROUGH + 2 * self.n_pairs()
+        self.thorough_runs = self.N_RANDOM_THOROUGH + 2 * self.n_pairs() + 8 * len(self.kinds)
+        self.quick_runs = 1000 + len(self.kinds)
         self.wrapped_locks = wrap_module_locks([m for n, m in sorted(sys.modules.items())
                                                 if m is not None and (n == 'geodepy' or n.startswith('geodepy.'))])
+        self.sut_codes = sut_code_objects([m for n, m in sorted(sys.modules.items())
+                                            if m is not None and (n == 'geodepy' or n.startswith('geodepy.'))] + [self.canary_mod])
         self.base_fast = self.fast_snapshot()
         self.base_mod = self.module_snapshot()
 
@@ -288,11 +291,29 @@ class C09(CheckBase):
             ops.append(o)
         return {'property': 'C09', 'threads': T, 'ops': ops, 'shared': [], 'faults': [],
                 'sched': {'mode': 'rng', 'seed': rng.getrandbits(64)}, 'switches': [], 'opcode_salt': None,
-                'scribble': rng.random() < 0.35, 'focus': [ka, kb], 'pair_sweep': True}
+                'scribble': rng.random() < 0.35, 'focus': [ka, kb], 'pair_sweep': True,
+                'granularity': 'instr' if T == 2 and rng.random() < 0.5 else 'line'}
+
+    def _same_kind_trace(self, rng, j):
+        """Systematic part of BOTH tiers: every op kind twice on each of two threads with different
+        arguments, pre-empted at every bytecode instruction under a dense random-walk schedule - the
+        configuration in which a function races with itself on hidden shared state."""
+        k = self.kinds[j % len(self.kinds)]
+        ops = []
+        for n in range(4):
+            ops.append({'id': n, 'kind': k, 'args': ops_mod.OPS[k][1](rng, self.ctx), 'thread': n % 2})
+        return {'property': 'C09', 'threads': 2, 'ops': ops, 'shared': [], 'faults': [],
+                'sched': {'mode': 'rw', 'p': rng.choice([0.5, 0.5, 0.25, 0.75]), 'seed': rng.getrandbits(64)}, 'switches': [],
+                'opcode_salt': None, 'scribble': False, 'focus': [k], 'pair_sweep': True, 'granularity': 'instr'}
 
     def generate(self, rng, i, tier):
+        if i < len(self.kinds):
+            return self._same_kind_trace(rng, i)
         if tier == 'thorough' and i >= self.N_RANDOM_THOROUGH:
-            return self._pair_trace(rng, i - self.N_RANDOM_THOROUGH)
+            j = i - self.N_RANDOM_THOROUGH
+            if j >= 2 * self.n_pairs():
+                return self._same_kind_trace(rng, j - 2 * self.n_pairs())
+            return self._pair_trace(rng, j)
         cls = rng.randrange(10)
         if cls < 2:
             T = 1
@@ -374,9 +395,14 @@ class C09(CheckBase):
         # when opcode events are enabled while another thread is suspended inside the same code object
         # (reproduced: ~2 % of multi-threaded runs die with SIGSEGV).  Line events only.
         opcode = None
+        # a share of the multi-threaded, fault-free, shorter runs is pre-empted at every bytecode
+        # instruction (sys.monitoring) instead of at every line: splits single-line read-modify-writes
+        gran = 'line'
+        if T > 1 and not faults and len(ops) <= 20 and rng.random() < 0.3:
+            gran = 'instr'
         return {'property': 'C09', 'threads': T, 'ops': ops, 'shared': shared, 'faults': faults,
                 'sched': {'mode': 'rng', 'seed': rng.getrandbits(64)}, 'switches': [], 'opcode_salt': opcode,
-                'scribble': rng.random() < 0.35, 'focus': focus}
+                'scribble': rng.random() < 0.35, 'focus': focus, 'granularity': gran}
 
     @staticmethod
     def _same_shape(lit, v):
@@ -467,6 +493,9 @@ class C09(CheckBase):
             decider = draw_decider(random.Random(trace['sched']['seed']), T)
         elif sm == 'rr':
             decider = RoundRobin(None, trace['sched'].get('q', 1)) if T > 1 else Decider()
+        elif sm == 'rw':
+            from detsim.sched import RandomWalk
+            decider = RandomWalk(random.Random(trace['sched']['seed']), trace['sched'].get('p', 0.5)) if T > 1 else Decider()
         else:
             decider = Replay(trace.get('switches', []))
         # faults
@@ -486,8 +515,11 @@ class C09(CheckBase):
                 continue
             line = 1 + int(f['frac'] * r['lines'])
             fault_map[(o['id'], min(line, r['lines']))] = f['kind']
-        sched = Sched(T, decider, log, self.is_sut_file, max_steps=RUN_STEP_BUDGET, faults=fault_map,
-                      stalls=stalls, opcode_salt=trace.get('opcode_salt'))
+        instr = trace.get('granularity') == 'instr'
+        if instr:
+            fault_map = {}
+        sched = Sched(T, decider, log, self.is_sut_file, max_steps=RUN_STEP_BUDGET * (8 if instr else 1), faults=fault_map,
+                      stalls=stalls, opcode_salt=None, instruction_codes=self.sut_codes if instr else None)
         self.cur_sched = sched
         self.barrier_hits = []
         per_thread = [[o for o in ops if o['thread'] % T == t] for t in range(T)]
@@ -663,8 +695,9 @@ class C09(CheckBase):
         if any(o['kind'] in ('transform.conform7', 'transform.conform14') and len(o['args']) > (4 if o['kind'].endswith('7') else 5)
                for o in ops):
             bump('probe:covariance_with_sd_op')
-        if trace.get('opcode_salt'):
-            bump('opcode_granularity_runs')
+        if instr:
+            bump('instruction_granularity_runs')
+            bump('instruction_steps', sched.steps)
         if sched.budget_hit:
             bump('runs_hitting_step_budget')
         sets['op_kinds'] = sorted(set(o['kind'] for o in ops))
@@ -788,6 +821,7 @@ class C09(CheckBase):
         ops_mod.OPS.setdefault('canary.sorts_argument', ('f:canary.sorts_argument', None))
         ops_mod.OPS.setdefault('canary.touches_constant', ('f:canary.touches_constant', None))
         ops_mod.OPS.setdefault('canary.coarse_memo', ('f:canary.coarse_memo', None))
+        ops_mod.OPS.setdefault('canary.one_line_race', ('f:canary.one_line_race', None))
 
         def tr(T, ops, sched):
             return {'property': 'C09', 'threads': T, 'ops': ops, 'shared': [], 'faults': [], 'sched': sched,
@@ -803,6 +837,11 @@ class C09(CheckBase):
             ('transient write to a shipped constant',
              tr(1, [{'id': 0, 'kind': 'canary.touches_constant', 'args': [6378000.0], 'thread': 0}], {'mode': 'rr'}),
              ['O1-constant-written']),
+            ('single-line read-modify-write race (needs instruction-level pre-emption)',
+             dict(tr(2, [{'id': 0, 'kind': 'canary.one_line_race', 'args': [1.5], 'thread': 0},
+                         {'id': 1, 'kind': 'canary.one_line_race', 'args': [2.5], 'thread': 1}], {'mode': 'rr', 'q': 3}),
+                  granularity='instr'),
+             ['O3-result-differs-from-pristine']),
             ('memo keyed too coarsely (needs a history)',
              tr(1, [{'id': 0, 'kind': 'canary.coarse_memo', 'args': [298.25, 10.0], 'thread': 0},
                     {'id': 1, 'kind': 'canary.coarse_memo', 'args': [297.0, 10.0], 'thread': 0}], {'mode': 'rr'}),
